@@ -19,15 +19,17 @@ import (
 // ---------------------------------------------------------------------------------------------
 // alphabets
 
-var Keys = []string{"a", "a/", "b", "ab", "a/b", "k1", `c\d`} // "a" and "a/" differ only by a trailing slash; one key holds a backslash
+// "a" and "a/" differ only by a trailing slash; one key holds a backslash; three hold per cent signs ("a%%" is what a
+// formatting function makes "a%" of, "v%d" asks for an argument)
+var Keys = []string{"a", "a/", "b", "ab", "a/b", "k1", `c\d`, "a%", "a%%", "v%d"}
 var Vals = [][]byte{nil, {}, []byte("x"), []byte("yy")}
 
 // Patterns: the subset on which gobwas/glob (no separators) and Redis MATCH agree.
 // The last four use backslash escapes (\\ = a literal backslash, \x = the literal character x), no other glob syntax.
-var Patterns = []string{"*", "?", "a*", "*b", "a?", "[ab]", "[a-c]*", "k1", "a/b", "a/*", "??", "zz*", "*/*", "[k]1", `c\\d`, `a\/b`, `c\d`, `c\\*`}
+var Patterns = []string{"*", "?", "a*", "*b", "a?", "[ab]", "[a-c]*", "k1", "a/b", "a/*", "??", "zz*", "*/*", "[k]1", `c\\d`, `a\/b`, `c\d`, `c\\*`, "a%*", "*%*", "v%d"}
 
 // Expiry codes: offset from "now" at the time of the write. 0 = no expiry.
-var ExpOffsets = []time.Duration{0, time.Hour, 3 * time.Hour, 100 * time.Hour, -time.Hour, 0}
+var ExpOffsets = []time.Duration{0, time.Hour, 3 * time.Hour, 100 * time.Hour, -time.Hour, 0, -time.Hour}
 
 const (
 	ExpNone    = 0
@@ -35,6 +37,7 @@ const (
 	Exp3h      = 2
 	Exp100h    = 3
 	ExpPast    = 4 // written already expired (in-memory backend only; Redis clamps TTLs to >= 1ms)
+	ExpZero    = 6 // written with a pointer to the zero time.Time (1 January of the year 1): long expired
 	ExpNever   = 5 // an expiry centuries ahead (year 2500 and beyond): never reached, and beyond what int64 nanoseconds can express
 	garbageVer = "01ARZ3NDEKTSV4RRFFQ69G5FAV"
 )
@@ -140,12 +143,13 @@ func (m *Model) write(k string, val []byte, exp int) *mrec {
 
 // Driver wraps one backend.
 type Driver struct {
-	Name    string
-	St      kvs.Storage
-	Now     func() time.Time      // clock the backend reads (fake inside a bubble, real for Redis)
-	Advance func(d time.Duration) // moves that clock (nil: the case has no advance ops)
-	Settle  func()                // lets background goroutines reach quiescence (bubble: synctest.Wait)
-	WaitMax time.Duration         // safety timeout for wait ops expected to return at once
+	Name      string
+	St        kvs.Storage
+	Now       func() time.Time      // clock the backend reads (fake inside a bubble, real for Redis)
+	Advance   func(d time.Duration) // moves that clock (nil: the case has no advance ops)
+	Settle    func()                // lets background goroutines reach quiescence (bubble: synctest.Wait)
+	WaitMax   time.Duration         // safety timeout for wait ops expected to return at once
+	PastWrite func()                // called after a write of an already expired record (Redis: lets the minimum TTL of 1 ms pass)
 
 	cur      map[string]string     // version of the key's current record as far as known ("" = unknown)
 	prev     map[string]string     // a version the key had before
@@ -173,6 +177,9 @@ func (d *Driver) expiry(m *Model, exp int) *time.Time {
 		return nil
 	}
 	t := d.Now().Add(ExpOffsets[exp])
+	if exp == ExpZero {
+		t = time.Time{}
+	}
 	if exp == ExpNever {
 		// centuries to hundreds of millennia ahead, on both sides of what 64-bit nanoseconds, RFC 3339 and protobuf timestamps can express
 		years := []int{2500, 2999, 9999, 10000, 10001, 25000, 292277, 1000000}
@@ -180,6 +187,16 @@ func (d *Driver) expiry(m *Model, exp int) *time.Time {
 		d.neverN++
 	}
 	return &t
+}
+
+// isPast: the record is written already expired.
+func isPast(exp int) bool { return exp == ExpPast || exp == ExpZero }
+
+// pastWritten lets the backend get rid of a record that was written already expired (Redis keeps it for the minimum TTL of 1 ms).
+func (d *Driver) pastWritten() {
+	if d.PastWrite != nil {
+		d.PastWrite()
+	}
 }
 
 func cp(b []byte) []byte {
@@ -412,7 +429,9 @@ func runSeq(c SCase, drivers []*Driver, info *Info) *vstat.Violation {
 				if v := d.newVersion(where, key, ver); v != nil {
 					return v
 				}
-				if op.Exp != ExpPast {
+				if isPast(op.Exp) {
+					d.pastWritten()
+				} else {
 					got, err := d.St.Get(ctx, key)
 					if err != nil {
 						return vstat.V(d.Name+":get-after-write", "%s: Get right after Create failed: %s", where, errName(err))
@@ -495,7 +514,9 @@ func runSeq(c SCase, drivers []*Driver, info *Info) *vstat.Violation {
 				if v := d.checkRecord(where+" (returned record)", key, got, nr); v != nil {
 					return v
 				}
-				if op.Exp != ExpPast {
+				if isPast(op.Exp) {
+					d.pastWritten()
+				} else {
 					rb, err := d.St.Get(ctx, key)
 					if err != nil {
 						return vstat.V(d.Name+":get-after-write", "%s: Get right after Put failed: %s", where, errName(err))
@@ -542,8 +563,9 @@ func runSeq(c SCase, drivers []*Driver, info *Info) *vstat.Violation {
 				sort.Strings(ks)
 				for _, k := range ks {
 					d.passed[k] = exps[k]
-					if finalExp[k] == ExpPast {
+					if isPast(finalExp[k]) {
 						d.cur[k] = ""
+						d.pastWritten()
 						continue
 					}
 					if v := d.learn(where, k, final[k]); v != nil {
@@ -593,6 +615,9 @@ func runSeq(c SCase, drivers []*Driver, info *Info) *vstat.Violation {
 					}
 					if v := d.checkRecord(where+" (returned record)", key, got, nr); v != nil {
 						return v
+					}
+					if isPast(op.Exp) {
+						d.pastWritten()
 					}
 				}
 				if ex != nil && err != nil {
